@@ -139,7 +139,7 @@ func init() {
 		}
 		runBND(c, r, "BND", fixFuncs(c, g, fs), nil, res)
 	}
-	registerFixture(fixtureCheck{Group: "bnd", Pkg: "bnd/bad", Run: bnd, Want: []string{"bnd/bad.Digits:", "bnd/bad.From:", "bnd/bad.At:"}})
+	registerFixture(fixtureCheck{Group: "bnd", Pkg: "bnd/bad", Run: bnd, Want: []string{"bnd/bad.Digits:", "bnd/bad.From:", "bnd/bad.At:", "bnd/bad.Chain:"}})
 	registerFixture(fixtureCheck{Group: "bnd", Pkg: "bnd/good", Run: bnd})
 	ta := func(c *Ctx, r *Result, key string) {
 		g, fs := c.fixGraph(key)
